@@ -238,6 +238,16 @@ class Scanner:
                 rem = ("str", ladd(s[1], lin(**{m: 1})), s[2])
                 val = ("opt", ("tuple", (rem, None)))
                 env[("peek", bi)] = (s, rem)
+            elif re.search(r"<impl str>::(match_indices|char_indices)$", nm) and args:
+                # an iterator of (position relative to s, ..) pairs
+                val = ("positions", self.as_str(self.operand(env, args[0])))
+            elif re.search(r"IntoIterator>?::into_iter$|Iterator::(by_ref|peekable|fuse)$", nm) and args:
+                v0 = self.operand(env, args[0])
+                val = v0 if v0 is not None and v0[0] == "positions" else None
+            elif re.search(r"Iterator>?::next$", nm) and args:
+                v0 = self.operand(env, args[0])
+                if v0 is not None and v0[0] == "positions":
+                    val = ("opt", ("tuple", (("int", lin(**{self.sym("pos", bi): 1})), None)))
             elif re.search(r"Deref>?::deref$|AsRef<str>>?::as_ref$|String::as_str$|Borrow<str>>?::borrow$", nm) and args:
                 val = self.operand(env, args[0])
             elif re.search(r"result::Result::<T, E>::(ok|map_err)$|option::Option::<T>::(ok_or|ok_or_else)$|anyhow::Context.*::(context|with_context)$|ops::Try>?::branch$", nm) and args:
